@@ -640,7 +640,7 @@ def r29(text):
 def r30(text):
     n = 0
     while True:
-        m = re.search(r"\b(\w+)\.strip_prefix\(", text)
+        m = re.search(r"\b(\w+)\.strip_prefix\((?!\s*[\"'])", text)      # a `"str"` / `'c'` pattern is the str method, not the slice one
         if not m:
             break
         o = m.end() - 1
@@ -766,6 +766,28 @@ def r42(text):
     return text.replace("_\x00(", "("), n
 
 
+@rule("R43", "Definition of Option::or_else with a closure: `X.or_else(|| E)` -> `(match X { Some(v_) => Some(v_), None => E })`.")
+def r43(text):
+    n = 0
+    while True:
+        m = re.search(r"\.\s*or_else\(\s*\|\s*\|", text)
+        if not m:
+            break
+        o = text.index("(", m.start())
+        toks = tokenize(text[o:])
+        c = o + toks[match_close(toks, 0)].start
+        inner = text[o + 1:c]
+        e = re.sub(r"^\s*\|\s*\|\s*", "", inner, count=1).strip()
+        rs = _receiver_start(text, m.start())
+        recv = text[rs:m.start()].rstrip()
+        rep = "(match %s { Some(v_) => Some(v_), None => %s })" % (recv, e)
+        old = text[rs:c + 1]
+        rep = rep + "\n" * max(0, old.count("\n") - rep.count("\n"))
+        text = text[:rs] + rep + text[c + 1:]
+        n += 1
+    return text, n
+
+
 @rule("R39", "Definition of Option::map_or with a closure: `X.map_or(D, |p| E)` -> `match X { Some(p) => E, None => D }`.")
 def r39(text):
     n = 0
@@ -869,6 +891,42 @@ def t_file(text):
         (r"<\s*D\s*:[^{;]*?\bE\s*:[^{;]*?>\s*(?=\{)", "<D, E> "),
         (r"(?:::)?\bstd::fs::(File|Metadata)\b", r"fs::\1"),
     ], text)
+
+
+@rule("R44", "`futures::stream::unfold(INIT, move |(a, b)| async { B })` step lifting (file.rs get_range): the function body "
+             "`let stream = stream::unfold((range, Arc::clone(&self.inner)), move |(left, inner)| async { B }); let _: &dyn Stream<..> = &stream; Box::pin(stream)` "
+             "-> `{ B }`, the step function of the unfold, with the closure's pattern variables as the overlay's parameters "
+             "(an `async` block without `.await` is its body; the initial state is checked to be `(range, Arc::clone(&self.inner))`, i.e. the "
+             "requested range and this file); `tokio::task::block_in_place(move || X)` -> `(X)` (runs the closure on the current thread "
+             "and returns its value); `Box::<dyn StdError + Send + Sync + 'static>::from(e).into()` -> `box_error_into(e)` (prelude: the same "
+             "two conversions as one named function); ghost read log: `.read_at(n, off)` -> `.read_at(n, off, reads)`.")
+def r44(text):
+    m = re.search(r"\blet\s+stream\s*=\s*stream::unfold\(", text)
+    if not m:
+        return text, 0
+    o = m.end() - 1
+    toks = tokenize(text[o:])
+    c = o + toks[match_close(toks, 0)].start
+    args = _split_top(text[o + 1:c])
+    args = [a for a in args if a.strip()]
+    if len(args) != 2 or re.sub(r"\s+", "", args[0]) != "(range,Arc::clone(&self.inner))":
+        return text, 0
+    cm = re.match(r"\s*move\s*\|\s*\(\s*left\s*,\s*inner\s*\)\s*\|\s*async\s*\{", args[1])
+    rest = re.sub(r"\s+", " ", text[c + 1:]).strip()
+    if not cm or ".await" in args[1] or not re.fullmatch(r"; let _: &dyn Stream<Item = Result<Self::Data, Self::Error>> = &stream; Box::pin\(stream\) \}", rest):
+        return text, 0
+    clo_start = o + 1 + text[o + 1:c].index(args[1])
+    b_open = clo_start + cm.end() - 1
+    toks2 = tokenize(text[b_open:])
+    b_close = b_open + toks2[match_close(toks2, 0)].start
+    inner = text[b_open + 1:b_close]
+    head_nl = text[:b_open].count("\n")
+    tail_nl = text[b_close:].count("\n")
+    out = "{" + "\n" * head_nl + inner + "\n" * tail_nl + "}"
+    out, n1 = re.subn(r"tokio::task::block_in_place\(\s*move\s*\|\|", "(", out)
+    out, n2 = re.subn(r"Box::<dyn StdError \+ Send \+ Sync \+ 'static>::from\((\w+)\)\.into\(\)", r"box_error_into(\1)", out)
+    out, n3 = re.subn(r"\.read_at\(([^()]*)\)", r".read_at(\1, reads)", out)
+    return out, 1 + n1 + n2 + n3
 
 
 @rule("R36", "Function-local `static NAME: usize = <literal>;` -> `const NAME: usize = <literal>;` (an immutable integer static and a const "
